@@ -1,5 +1,5 @@
 import Invoke.Lemmas.ProgramParse
-import Invoke.Lemmas.ProgramPlacementD
+import Invoke.Lemmas.ProgramPlacementE
 import Invoke.Lemmas.SpellCheck
 import Invoke.Generated.Program
 /-! # C18 — core options mean the same anywhere; task tokens and the remainder stay intact
@@ -166,8 +166,8 @@ are not core items in the sense of `CoreStep`, not after one of those either
     of the chain without the flag), the same observable core values (`Ctx.view`: declaration + value of every core
     argument) and hence the same configuration overrides.  Holds with positionals of the task still missing at the
     insertion point (DESIGN §4 #27).
-    Still missing for the full statement: the flag inside a LATER call than the first, the combined short block and the
-    `=`/glued spellings of value flags (they go through `presplit`). -/
+    The other cases of the full statement are separate theorems below: a later call (`…_later`), value flags in every
+    spelling (`core_value_flag_placement_partial3`), the combined short block (`core_bool_block_placement_partial2`). -/
 theorem core_flag_placement_invariant_partial2 (ic : Ctx) (reg : List Ctx) (k : Call) (pre post : List Item)
     (calls2 : List Call) (tok : Tok) (i : Nat) (a a' : Arg)
     (hk : k.items = pre ++ post) (hok : ChainOK (some ic) reg (some ic) (k :: calls2))
@@ -332,6 +332,41 @@ theorem core_value_flag_placement_partial3_later (ic : Ctx) (reg : List Ctx) (k0
     simp [Arg.gotValue, this, s3]
   have hview := updateCore_view ic i a a' ha s1 hfresh hga' s3
   exact ⟨_, _, hA, hB, hview, overrides_view _ _ hview, rfl, rfl, rfl⟩
+
+/-- PLACEMENT, COMBINED SHORT BOOLEAN BLOCK OF CORE FLAGS, WHOLE ARGV (partial2).  `-xyz…` whose letters are all Boolean core
+    flags (`BoolPieces`: none declared by the task, none a task name, none `-h`) between two items of ANY call of the chain
+    (`calls1` may be empty) means the same as before all tasks.  `hfresh`: the Boolean core arguments start unset (true of
+    the real core table). -/
+theorem core_bool_block_placement_partial2 (ic ic' : Ctx) (reg : List Ctx) (calls1 : List Call) (k : Call) (pre post : List Item)
+    (calls2 : List Call) (x : Char) (ys : List Char)
+    (hk : k.items = pre ++ post) (hok : ChainOK (some ic) reg (some ic) (calls1 ++ k :: calls2))
+    (hpre : endsBare false pre = false)
+    (hx : x ≠ '-') (hys : ys ≠ []) (hne : hasEq ('-' :: x :: ys) = false)
+    (hp : BoolPieces reg k.ctx ic (blockPieces x ys) ic')
+    (hfresh : ∀ a ∈ ic.args, a.takesValue = false → a.gotValue = false ∧ a.spec.kind ≠ .list)
+    (hpos : ic.positional = [])
+    (hbodyA : ∀ t ∈ calls1.flatMap Call.toks ++ argvWithCore k pre post ['-' :: x :: ys] calls2, t ≠ ['-', '-'])
+    (hbodyB : ∀ t ∈ ['-' :: x :: ys] ++ (calls1 ++ k :: calls2).flatMap Call.toks, t ≠ ['-', '-']) :
+    ∃ rA rB, programParse ic reg (calls1.flatMap Call.toks ++ argvWithCore k pre post ['-' :: x :: ys] calls2) = .ok rA ∧
+      programParse ic reg (['-' :: x :: ys] ++ (calls1 ++ k :: calls2).flatMap Call.toks) = .ok rB ∧
+      rA.core.view = rB.core.view ∧ overrides rA.core = overrides rB.core ∧
+      rA.tasks = (calls1 ++ k :: calls2).map Call.result ∧ rB.tasks = rA.tasks ∧ rA.remainder = rB.remainder := by
+  have htab := foldl_apply_tables pre k.ctx
+  have hp' : BoolPieces reg (pre.foldl Item.apply k.ctx) ic (blockPieces x ys) ic' := BoolPieces.congr htab.1 htab.2 hp
+  have hcore := coreStep_block ic ic' reg _ x ys hx hys hne hp'
+  have hcore0 := coreStep0_block ic ic' reg _ x ys hx hys hne hp'
+  obtain ⟨t1, t2, t3⟩ := hp.tables
+  have hmiss' : ic'.missingPositional = [] := by simp [Ctx.missingPositional, t3, hpos]
+  have hview := updateCore_view_pieces reg k.ctx ic ic' _ hfresh hp
+  cases calls1 with
+  | nil =>
+    obtain ⟨hA, hB⟩ := program_with_core ic ic' reg k pre post calls2 ['-' :: x :: ys] t1 t2 hmiss' hk hok hpre hcore hcore0
+      (by simpa using hbodyA)
+    exact ⟨_, _, hA, hB, hview, overrides_view _ _ hview, rfl, rfl, rfl⟩
+  | cons k0 r0 =>
+    obtain ⟨hA, hB⟩ := program_with_core_later ic ic' reg k0 r0 k pre post calls2 ['-' :: x :: ys] t1 t2 hmiss' hk hok hpre
+      hcore hcore0 hbodyA hbodyB
+    exact ⟨_, _, hA, hB, hview, overrides_view _ _ hview, rfl, rfl, rfl⟩
 
 /-- SHADOWING, WHOLE ARGV.  In a chain of calls admissible in the sense of C01 every flag token is, by `Item.ok`, a flag
     the TASK declares — also when the core context declares the same spelling (`-p`: `--pty` vs. the auto short flag
@@ -581,6 +616,22 @@ example : ∃ rA rB,
   have h := core_flag_placement_invariant_partial2_later coreCtx c18Reg plCall2 [] plCall [] plCall.items [] "-e".toList 5
     (coreCtx.args.getD 5 (Arg.init { names := [] })) _ rfl (chainOKb_sound _ (by decide)) rfl (unsplitB_sound (by decide))
     (by decide) (by decide) (by decide) (by decide) (by decide) (by decide) (by decide) (by decide) (by decide) rfl (by decide)
+    (noSentinelB_sound (by decide)) (noSentinelB_sound (by decide))
+  let ⟨rA, rB, h1, h2, _, h4, _, h6, _⟩ := h
+  ⟨rA, rB, h1, h2, h4, h6⟩
+
+/-- `core_bool_block_placement_partial2` applied: `t2 -ew val -v` vs `-ew t2 val -v` (echo = index 5, warn-only = index 15) -/
+example : ∃ rA rB,
+    programParse coreCtx c18Reg (argvOf ["t2", "-ew", "val", "-v"]) = .ok rA ∧
+    programParse coreCtx c18Reg (argvOf ["-ew", "t2", "val", "-v"]) = .ok rB ∧
+    overrides rA.core = overrides rB.core ∧ rB.tasks = rA.tasks :=
+  have hp : BoolPieces c18Reg plCall.ctx coreCtx (blockPieces 'e' ['w']) _ :=
+    .cons 5 (coreCtx.args.getD 5 (Arg.init { names := [] })) _ (unsplitB_sound (by decide)) (by decide) (by decide) (by decide)
+      (by decide) (by decide) (by decide) (by decide) rfl
+      (.cons 15 (coreCtx.args.getD 15 (Arg.init { names := [] })) _ (unsplitB_sound (by decide)) (by decide) (by decide) (by decide)
+        (by decide) (by decide) (by decide) (by decide) rfl (.nil _))
+  have h := core_bool_block_placement_partial2 coreCtx _ c18Reg [] plCall [] plCall.items [] 'e' ['w'] rfl
+    (chainOKb_sound _ (by decide)) rfl (by decide) (by decide) (by decide) hp (by decide) (by decide)
     (noSentinelB_sound (by decide)) (noSentinelB_sound (by decide))
   let ⟨rA, rB, h1, h2, _, h4, _, h6, _⟩ := h
   ⟨rA, rB, h1, h2, h4, h6⟩
